@@ -46,7 +46,8 @@ inline char LetterOf(CstType t) {
 inline std::vector<EntityUID> ListOf(const RSForm& f) { std::vector<EntityUID> v; for (const auto uid : f.List()) v.push_back(uid); return v; }
 
 // view of the schema for the generator (uses what the library itself reports; only a hint for generation)
-inline exprgen::Env EnvOf(const RSForm& f) {
+template <class DocT>
+inline exprgen::Env EnvOf(const DocT& f) {
   exprgen::Env env;
   for (const auto uid : f.List()) {
     const auto& rs = f.GetRS(uid); const auto& parse = f.GetParse(uid);
